@@ -57,6 +57,14 @@ Base(bs, dom, x, y) == CASE bs = "eq" -> EqM(dom, x, y)
                          [] bs = "ord" -> CmpM(dom, x, y)
                          [] bs = "rel" -> Less(dom, x, y)
                          [] bs = "rev" -> 0 - CmpM(dom, x, y)
+                         \* wrapped functions that return what they like (results outside LT / EQ / GT): a From wrapper
+                         \* must hand the VALUE back unchanged
+                         [] bs = "diff" -> IF dom = "str" THEN Len(x) - Len(y) ELSE x - y        \* difference of ranks / lengths
+                         [] bs = "weight" -> IF Less(dom, x, y) THEN 7 ELSE IF Less(dom, y, x) THEN 0 - 3 ELSE 5
+                         [] bs = "const" -> 42
+                         [] bs = "first" -> x             \* int domain: the first argument itself as the "ordering" (boundary ints)
+                         [] bs = "true" -> TRUE
+                         [] bs = "false" -> FALSE
 \* projections: len: str -> num;  tab: int -> str (a non-monotone walk through the table);  flip: int -> int (order
 \* reversing);  rot: int -> int (a permutation of the table that does not commute with flip: checked in AlgebraMC)
 Proj(p, v) == CASE p = "len" -> Len(v)
@@ -84,6 +92,15 @@ InstTab ==
   @@ "ord.From/int"                 :> D7("from", "int", "rev", <<>>, "int", TRUE, "none")
   @@ "ord.From/str"                 :> D7("from", "str", "rev", <<>>, "str", TRUE, "none")
      \* From wrapping the method values of the built-in instances
+  @@ "ord.From/diff/int"            :> D7("from", "int", "diff", <<>>, "int", TRUE, "none")
+  @@ "ord.From/diff/str"            :> D7("from", "str", "diff", <<>>, "str", TRUE, "none")
+  @@ "ord.From/weight/int"          :> D7("from", "int", "weight", <<>>, "int", TRUE, "none")
+  @@ "ord.From/weight/str"          :> D7("from", "str", "weight", <<>>, "str", TRUE, "none")
+  @@ "ord.From/const/str"           :> D7("from", "str", "const", <<>>, "str", TRUE, "none")
+  @@ "ord.From/first/int"           :> D7("from", "int", "first", <<>>, "int", TRUE, "none")
+  @@ "eq.From/true/str"             :> D7("from", "str", "true", <<>>, "str", TRUE, "none")
+  @@ "eq.From/false/int"            :> D7("from", "int", "false", <<>>, "int", TRUE, "none")
+  @@ "ord.ContraMap/len/diff"       :> D7("contramap", "str", "diff", <<"len">>, "num", TRUE, "none")
   @@ "eq.From/eq.Int.Equal"         :> D7("from", "int", "eq", <<>>, "int", FALSE, "none")
   @@ "eq.From/eq.String.Equal"      :> D7("from", "str", "eq", <<>>, "str", FALSE, "none")
   @@ "ord.From/ord.Int.Compare"     :> D7("from", "int", "ord", <<>>, "int", FALSE, "none")
